@@ -1,6 +1,6 @@
 CONSTANTS HW = 4
           Margin = 8
-          Marks = {0, 28800, 46800, 81000, 86399}
+          Marks = {0, 46800, 81000, 86399}
           WeekendNos = {1, 2, 3}
           OwnAdjs = {"m"}
           TPad = 1
